@@ -65,8 +65,9 @@ func Fixtures() map[string]*pem.Block {
 }
 
 var (
-	GoodKeys   = []string{"rsa2048", "rsa3072", "rsa4096", "ec256", "ec256b", "ec384", "ec521", "ec256enc"}
-	BadKeys    = []string{"rsa1024", "ec224", "ed25519"}
+	GoodKeys = []string{"rsa2048", "rsa3072", "rsa4096", "ec256", "ec256b", "ec384", "ec521", "ec256enc"}
+	// sizes below, between, just beside and above the supported ones
+	BadKeys    = []string{"rsa1024", "ec224", "ed25519", "rsa1536", "rsa2056", "rsa2560", "rsa3584", "rsa4088", "rsa5120"}
 	OtherBlock = []string{"ec256pub"}
 	Certs      = []string{"cert_root", "cert_inter", "cert_ec256", "cert_rsa2048", "cert_ec384_nods", "cert_ec521_expired",
 		"cert_ec256b_self", "cert_rsa1024", "cert_ec224"}
@@ -609,6 +610,9 @@ func Catch(f func()) (site string, msg string) {
 }
 
 // ------------------------------------------------------------------ content generator
+
+// AllKeys: every private-key fixture, supported or not.
+func AllKeys() []string { return append(append([]string{}, GoodKeys...), BadKeys...) }
 
 // Compositions used by the systematic sweeps (all load successfully in all
 // three components unless noted).
